@@ -127,6 +127,8 @@ class World:
     def line_codes(self, plan):
         return ()
 
+    SWARM_CONFIG = (("LOGWIRE", 0.12),)       # (config item, probability of switching it on) for every world
+
     def scenario(self, ctx):
         raise NotImplementedError
 
@@ -139,6 +141,15 @@ class World:
         rng = random.Random(run_seed)
         plan = self.gen(rng, tier)
         plan["seed"] = run_seed
+        # swarm-style configuration: unusual but legal settings that no oracle depends on, from a random stream of their own
+        # (so that gen()'s draws stay what they were); applied in run() before the scenario sets its own items
+        crng = random.Random(run_seed ^ 0xC0F1C0F1)
+        cfg = dict(plan.get("pyro_config") or {})
+        for item, p_on in self.SWARM_CONFIG:
+            if crng.random() < p_on:
+                cfg.setdefault(item, True)
+        if cfg:
+            plan["pyro_config"] = cfg
         plan.setdefault("net", {})
         plan["net"].setdefault("seed", run_seed ^ 0x9E3779B9)
         if "sched" not in plan:
@@ -163,6 +174,9 @@ class World:
         gc_was = gc.isenabled()
         gc.disable()
         seams.install(sched, net, uuid_seed=plan.get("seed", 0) ^ 0xABCDEF, line_codes=self.line_codes(plan))
+        for item, val in sorted((plan.get("pyro_config") or {}).items()):
+            setattr(seams.config, item, val)
+            ctx.probe("config:" + item)
         import time as _t
         CURRENT.update(sched=sched, t0=_t.time(), hits=0, steps=-1, lines=-1)
         try:
